@@ -18,7 +18,7 @@ import (
 
 func c11Gen(t *rapid.T, r *h.Rec) specCase {
 	av, onEx, onCl := avoidOpts(r)
-	o := &synth.Opts{Avoid: av, OnExclude: onEx, OnClass: onCl, SubPkgs: true, SameNamePkgs: true, RecursiveUnions: true, ForeignUnions: true, ShortModule: true, Spelling: true, Unions: 2, UnionStress: true,
+	o := &synth.Opts{Avoid: av, OnExclude: onEx, OnClass: onCl, SubPkgs: true, SameNamePkgs: true, Diamonds: true, RecursiveUnions: true, ForeignUnions: true, ShortModule: true, Spelling: true, Unions: 2, UnionStress: true,
 		FixedArrays: true, Maps: true, Aliases: true, Recursion: true, Embedded: true, MaxDecls: 10, MinDecls: 3, Pointers: true}
 	return specCase{Spec: synth.GenTypes(t, o)}
 }
